@@ -145,10 +145,89 @@ fn jobs_of(p: &Program, rng: &mut Rng) -> Vec<Job> {
     jobs
 }
 
+/// The channels must also agree where a render runs into one of the engine's nesting limits: recursive components
+/// around the component recursion limit and include chains around the render depth limit, through all four entry
+/// points. Both channels must succeed with the same bytes or both must fail.
+fn limits_case(cx: &mut Cx, case: u64) {
+    cx.begin_case(case, "limits");
+    let n = 10 + case as i64; // 10..=41 component levels
+    let chain = 160usize;
+    let mut tpls: Vec<(String, String)> = vec![
+        ("comps".into(), "{% component down(n) %}{{ n }}{% if n > 0 %},{{ <down n={n - 1} /> }}{% endif %}{% endcomponent %}{% component wrap(n) %}[{% include \"viainc\" %}]{% endcomponent %}".into()),
+        ("viainc".into(), "{% if n > 0 %}{{ <wrap n={n - 1} /> }}{% else %}.{% endif %}".into()),
+        ("page".into(), "<{{ <down n={n} /> }}>{% block b %}({{ <down n={n} /> }}){% endblock %}".into()),
+        ("mixed".into(), "{{ <wrap n={n} /> }}".into()),
+    ];
+    for i in 0..chain {
+        let body = if i + 1 < chain { format!("{i}:{{% include \"c{}\" %}}", i + 1) } else { "leaf".to_string() };
+        tpls.push((format!("c{i}"), body));
+    }
+    let tera = match guard(|| {
+        let mut t = Tera::default();
+        t.add_raw_templates(tpls.clone()).map(|_| t).map_err(|e| e.to_string())
+    }) {
+        Ok(Ok(t)) => t,
+        other => {
+            cx.violation("C18/limits-world-rejected", format!("the nesting-limit templates were not accepted: {:?}", other.map(|r| r.map(|_| ()))), json!({"templates": tpls[..4]}));
+            return;
+        }
+    };
+    let mut ctx = Context::new();
+    ctx.insert("n", &n);
+    // include chains whose depth below the entry point is 96 + 2*case (64 .. 158 around the limit of 128)
+    let depth = 96 + 2 * case as usize;
+    let entry = format!("c{}", chain - 1 - depth.min(chain - 1));
+    let jobs = vec![
+        Job::Component("down".into(), None, true),
+        Job::Component("wrap".into(), None, false),
+        Job::Template("page".into()),
+        Job::Template("mixed".into()),
+        Job::Block("page".into(), "b".into()),
+        Job::OneOff("{{ <down n={n} /> }}|{{ <wrap n={n} /> }}".into(), true),
+        Job::OneOff(format!("{{% include \"{entry}\" %}}"), false),
+        Job::Template(entry.clone()),
+    ];
+    for job in &jobs {
+        let replay = json!({"templates": tpls[..4], "include_chain": format!("c0..c{} each including the next", chain - 1), "job": format!("{job:?}"), "n": n});
+        let r = guard(|| {
+            let a = run_job(&tera, &ctx, job).map_err(|e| e.to_string());
+            let mut w = FaultyWriter::counting();
+            let b = run_job_to(&tera, &ctx, job, &mut w).map_err(|e| e.to_string());
+            (a, b, w)
+        });
+        cx.evals(2);
+        let jk = match job {
+            Job::Template(_) => "render",
+            Job::Block(..) => "render_block",
+            Job::Component(..) => "render_component",
+            Job::OneOff(..) => "render_str",
+        };
+        match r {
+            Err(p) => cx.violation(&format!("C18/panic/{}", panic_site(&p)), format!("render panicked on {job:?} (n = {n}): {p}"), replay),
+            Ok((a, b, w)) => {
+                cx.count("channel_pairs_at_nesting_limits", 1);
+                cx.cell(format!("limits|{jk}|{}", if a.is_ok() { "ok" } else { "err" }));
+                let same = match (&a, &b) {
+                    (Ok(s), Ok(())) => s.as_bytes() == w.accepted.as_slice(),
+                    (Err(_), Err(_)) => true,
+                    _ => false,
+                };
+                if !same {
+                    cx.violation(&format!("C18/channels-differ/{jk}"), format!("{jk} at nesting level {n} / include depth {depth}: {:?} vs the _to variant {:?} writing {:?}", a.as_ref().map(|s| clip(s, 120)), b, clip(&String::from_utf8_lossy(&w.accepted), 120)), replay);
+                }
+            }
+        }
+    }
+}
+
 pub fn run(cx: &mut Cx) {
     let total = cx.total(1000, 100_000);
     let vars = base_context();
     for case in cx.my_cases(total) {
+        if case < 32 {
+            limits_case(cx, case);
+            continue;
+        }
         cx.begin_case(case, "program");
         let mut rng = cx.rng(case);
         let program = {
